@@ -39,10 +39,12 @@ TYPES = {
     "list": lambda k: [[b"rpush", k, b"a", b"b", b"a"]],
     "hash": lambda k: [[b"hset", k, b"f", b"1", b"g", b"v"]],
     "zset": lambda k: [[b"zadd", k, b"1", b"a", b"2", b"b", b"2", b"c"]],
+    "set": lambda k: [[b"sadd", k, b"a", b"b", b"c"]],
+    "stream": lambda k: [[b"xadd", k, b"5-1", b"f", b"v"], [b"xadd", k, b"5-2", b"g", b"w"]],
 }
 # types the Coq model covers today; sets/streams are added by extending TYPES and PROBES
 # (and c06.MODEL_TYPES / MODEL_FAMILIES)
-DEFAULT_TYPES = ["string", "list", "hash", "zset"]
+DEFAULT_TYPES = ["string", "list", "hash", "zset", "set", "stream"]
 
 # ---------------------------------------------------------------- probing commands
 # name -> (family, command as a function of nothing); K is the key under test, O an existing
@@ -140,8 +142,38 @@ PROBES = {
     "zadd_incr": ("zset", [[b"zadd", K, b"incr", b"1.5", b"a"]]),
     "zrem": ("zset", [[b"zrem", K, b"a"]]),
     "zrem_all": ("zset", [[b"zrem", K, b"a", b"b", b"c"]]),
+    # sets: reads (O2 = a second set without deadline, created by the probe itself)
+    "scard": ("set", [[b"scard", K]]),
+    "sismember": ("set", [[b"sismember", K, b"a"]]),
+    "smembers": ("set", [[b"smembers", K]]),
+    "srandmember": ("set", [[b"srandmember", K]]),
+    "srandmember_n": ("set", [[b"srandmember", K, b"-4"]]),
+    "sunion": ("set", [[b"sadd", b"s2", b"b", b"z"], [b"sunion", K, b"s2", N]]),
+    "sinter": ("set", [[b"sadd", b"s2", b"b", b"z"], [b"sinter", b"s2", K]]),
+    "sdiff": ("set", [[b"sadd", b"s2", b"b", b"z"], [b"sdiff", b"s2", K]]),
+    # sets: writes
+    "sadd": ("set", [[b"sadd", K, b"a", b"n"]]),
+    "srem": ("set", [[b"srem", K, b"a"]]),
+    "srem_all": ("set", [[b"srem", K, b"a", b"b", b"c"]]),
+    "spop": ("set", [[b"spop", K]]),
+    "spop_n": ("set", [[b"spop", K, b"5"]]),
+    "smove_from": ("set", [[b"smove", K, N, b"a"]]),
+    "smove_onto": ("set", [[b"sadd", b"s2", b"b", b"z"], [b"smove", b"s2", K, b"z"]]),
+    "smove_self": ("set", [[b"smove", K, K, b"a"]]),
+    "sunionstore_onto": ("set", [[b"sadd", b"s2", b"b", b"z"], [b"sunionstore", K, b"s2", N]]),
+    "sinterstore_from": ("set", [[b"sadd", b"s2", b"b", b"z"], [b"sinterstore", N, b"s2", K]]),
+    "sdiffstore_self": ("set", [[b"sadd", b"s2", b"b", b"z"], [b"sdiffstore", K, K, b"s2"]]),
+    "sdiffstore_empty": ("set", [[b"sdiffstore", K, N, N]]),
+    # streams
+    "xrange": ("stream", [[b"xrange", K, b"-", b"+"]]),
+    "xrange_count": ("stream", [[b"xrange", K, b"5-2", b"+", b"COUNT", b"1"]]),
+    "xadd_auto": ("stream", [[b"xadd", K, b"*", b"f", b"v"]]),
+    "xadd_explicit": ("stream", [[b"xadd", K, b"99999999999999-0", b"f", b"v"]]),
+    "xadd_nomkstream": ("stream", [[b"xadd", K, b"NOMKSTREAM", b"*", b"f", b"v"]]),
+    "xadd_maxlen": ("stream", [[b"xadd", K, b"MAXLEN", b"1", b"*", b"f", b"v"]]),
+    "xadd_small": ("stream", [[b"xadd", K, b"1-1", b"f", b"v"]]),
 }
-DEFAULT_FAMILIES = ["string", "key", "list", "hash", "zset"]
+DEFAULT_FAMILIES = ["string", "key", "list", "hash", "zset", "set", "stream"]
 
 OFFSETS = [("d-1s", -1000), ("d-1ms", -1), ("d", 0), ("d+1ms", 1), ("d+1s", 1000)]
 
@@ -184,6 +216,11 @@ def attach_ways(typ):
     ways.append(("hset_keeps", 2, [[b"hset", K, b"n", b"1"]], [2]))
     ways.append(("hincrby_hdel_keeps", 2, [[b"hincrby", K, b"f", b"1"], [b"hdel", K, b"g"]], [2]))
     ways.append(("zadd_zrem_keeps", 2, [[b"zadd", K, b"9", b"z"], [b"zrem", K, b"a"]], [2]))
+    ways.append(("sadd_srem_keeps", 2, [[b"sadd", K, b"n"], [b"srem", K, b"a"]], [2]))
+    ways.append(("smove_onto_keeps", 2, [[b"sadd", b"s3", b"q"], [b"smove", b"s3", K, b"q"]], [2]))
+    ways.append(("xadd_keeps", 2, [[b"xadd", K, b"*", b"f", b"v"]], [2]))
+    ways.append(("sunionstore_drops", 1, [[b"sadd", b"s3", b"q"], [b"sunionstore", K, b"s3"]], [1]))
+    ways.append(("sdiffstore_self_drops", 1, [[b"sdiffstore", K, K, N]], [1]))
     # RENAME of a key with a deadline onto K (which may have its own), and away and back
     creator = TYPES[typ]
     ways.append(("rename_onto", 4, creator(b"src") + [[b"expire", b"src", b"2"], [b"rename", b"src", K]], [2, 4]))
@@ -220,12 +257,15 @@ def build_case(name, typ, way, cand, off_ms, phase, probe_cmds, dbs=1):
 
 
 def gen_matrix(seed, tier, types=None, families=None):
-    """every (type, way, candidate deadline, offset, probe); quick: one seeded clock phase per
-    (type, way, deadline, offset); thorough: six phases."""
+    """every (type, way, candidate deadline, offset) x probes; quick: all probes of the type's own
+    family and of the generic key commands + 10 seeded probes of other families, one seeded clock
+    phase; thorough: every probe, six phases."""
     r = random.Random(seed)
     types = types or DEFAULT_TYPES
     families = families or DEFAULT_FAMILIES
     probes = [(n, p[1]) for n, p in sorted(PROBES.items()) if p[0] in families]
+    own = lambda typ: [(n, p[1]) for n, p in sorted(PROBES.items()) if p[0] in families and p[0] in (typ, "key")]
+    foreign = lambda typ: [(n, p[1]) for n, p in sorted(PROBES.items()) if p[0] in families and p[0] not in (typ, "key")]
     cases = []
     i = 0
     for typ in types:
@@ -235,7 +275,10 @@ def gen_matrix(seed, tier, types=None, families=None):
                     if cand * 1000 + off < 0:
                         continue
                     if tier == "quick":
-                        chosen = probes
+                        # every probe of the key's own family and of the generic key commands,
+                        # a seeded sample of the other families' probes (all of them in thorough)
+                        fo = foreign(typ)
+                        chosen = own(typ) + r.sample(fo, min(10, len(fo)))
                         phases = [r.choice([0, 1, 250, 500, 998, 999])]
                     else:
                         chosen = probes
@@ -271,6 +314,9 @@ def gen_timer(seed, types=None):
         }
         if typ == "hash":
             scen["emptied_then_recreated"] = mk(K) + [[b"expire", K, b"1"], ("sleep", 500), [b"hdel", K, b"f", b"g"], [b"hset", K, b"n", b"1"]]
+        if typ == "set":
+            scen["emptied_then_recreated"] = mk(K) + [[b"expire", K, b"1"], ("sleep", 500), [b"spop", K, b"9"], [b"sadd", K, b"n"]]
+            scen["store_over_expiring"] = mk(K) + [[b"expire", K, b"1"], [b"sadd", b"s2", b"q"], ("sleep", 500), [b"sunionstore", K, b"s2"]]
         if typ == "zset":
             scen["emptied_then_recreated"] = mk(K) + [[b"expire", K, b"1"], ("sleep", 500), [b"zrem", K, b"a", b"b", b"c"], [b"zadd", K, b"1", b"n"]]
         if typ == "list":
@@ -326,10 +372,17 @@ def gen_random(seed, n, types=None):
                 cmd = gen.list_cmd(r, keys)
             elif x < 0.8:
                 cmd = gen.string_cmd(r, keys)
-            elif x < 0.9:
+            elif x < 0.86:
                 cmd = gen_hash.hash_cmd(r, keys, {})
-            else:
+            elif x < 0.92:
                 cmd = gen_zset.zset_cmd(r, keys, "dyadic")
+            elif x < 0.97:
+                cmd = r.choice([[b"sadd", k, r.choice([b"a", b"b"])], [b"srem", k, b"a"], [b"spop", k], [b"scard", k],
+                                [b"smembers", k], [b"smove", k, r.choice(keys), b"a"], [b"sinter", k, r.choice(keys)],
+                                [b"sunionstore", k, r.choice(keys), r.choice(keys)], [b"sdiffstore", r.choice(keys), k, r.choice(keys)]])
+            else:
+                cmd = r.choice([[b"xadd", k, b"*", b"f", b"v"], [b"xadd", k, b"nomkstream", b"*", b"f", b"v"],
+                                [b"xrange", k, b"-", b"+"], [b"xadd", k, b"maxlen", b"2", b"*", b"a", b"b"]])
             if cmd and cmd[0].lower() in (b"blpop", b"brpop") and cmd[-1] == b"0":
                 cmd[-1] = b"1"
             sl = r.choice([0, 0, 0, 1, 99, 100, 400, 500, 900, 999, 1000, 1001, 1999, 2000]) if r.random() < 0.5 else 0
